@@ -86,11 +86,122 @@ def _make(rng, nb, sizes, n_par, term_orders, values, E, hermitian, log, state):
     return BlockSeries(eval=ev_full, shape=(), n_infinite=n_par, name="H")
 
 
+def _secondq_case(spec, rng):
+    """Lazily defined second-quantised Hamiltonians (sympy expressions with boson / spin operators): a scalar series,
+    a 1x1 block series or a 2x2 operator-valued block series, two parameters."""
+    import sympy
+    import warnings
+    from sympy.physics.quantum import Dagger
+    from sympy.physics.quantum.boson import BosonOp
+    from pymablock import block_diagonalize
+    from pymablock.series import BlockSeries, zero
+
+    counters = Counter()
+    a, b = BosonOp("a"), BosonOp("b")
+    R = sympy.Rational
+    wa, wb = R(3, 2), R(47, 10)
+    na, nb_ = Dagger(a) * a, Dagger(b) * b
+    kind = str(rng.choice(["scalar", "block1", "block2"]))
+    cf = lambda: R(int(rng.integers(1, 5)), int(rng.integers(2, 6)))  # noqa: E731
+    if kind in ("scalar", "block1"):
+        table = {(0, 0): wa * na + wb * nb_, (1, 0): cf() * (a + Dagger(a)), (0, 1): cf() * (Dagger(a) * b + Dagger(b) * a)}
+        if rng.random() < 0.5:
+            table[(1, 1)] = cf() * na * (b + Dagger(b))
+        if rng.random() < 0.5:
+            table[(2, 0)] = cf() * (a**2 + Dagger(a) ** 2)
+        if rng.random() < 0.3:
+            del table[(0, 1)]  # the second mode then only appears at higher order or not at all
+    else:
+        g1, g2, g3 = cf(), cf(), cf()
+        table = None
+
+        def block_term(i, j, n):
+            if n == (0, 0):
+                return sympy.Matrix([[wa * na + (1 - 2 * i) * wb / 2]]) if i == j else zero
+            if n == (1, 0):
+                return sympy.Matrix([[g1 * (a + Dagger(a))]]) if i != j else zero
+            if n == (0, 1):
+                return sympy.Matrix([[(1 - 2 * i) * g2 * na]]) if i == j else zero
+            if n == (1, 1) and i != j:
+                return sympy.Matrix([[g3 * (a**2 if i < j else Dagger(a) ** 2)]])
+            return zero
+
+    log = []
+    state = {"cone": [(0, 0)]}
+
+    def note(key, n):
+        log.append((key, n))
+        if not any(all(x <= y for x, y in zip(n, c)) for c in state["cone"]):
+            raise OutOfCone(f"H{key + n} evaluated while computing order(s) {state['cone']}")
+
+    if kind == "scalar":
+        def ev(*n):
+            n = tuple(int(x) for x in n)
+            note((), n)
+            return table.get(n, sympy.S.Zero)
+        H = BlockSeries(eval=ev, shape=(), n_infinite=2, name="H")
+    elif kind == "block1":
+        def ev(i, j, *n):
+            n = tuple(int(x) for x in n)
+            note((int(i), int(j)), n)
+            return table.get(n, sympy.S.Zero)
+        H = BlockSeries(eval=ev, shape=(1, 1), n_infinite=2, name="H")
+    else:
+        def ev(i, j, *n):
+            n = tuple(int(x) for x in n)
+            note((int(i), int(j)), n)
+            return block_term(int(i), int(j), n)
+        H = BlockSeries(eval=ev, shape=(2, 2), n_infinite=2, name="H")
+    with warnings.catch_warnings():
+        warnings.simplefilter("ignore")
+        try:
+            outs = block_diagonalize(H)
+        except OutOfCone as e:
+            raise Violation(f"defining the block diagonalisation of a second-quantised series evaluated a perturbative term: {e}")
+        except Exception as e:  # noqa: BLE001
+            raise Violation(f"block_diagonalize on a lazily defined second-quantised series raised {type(e).__name__}: {e}")
+        bad = [l for l in log if any(l[1])]
+        if bad:
+            raise Violation(f"defining the block diagonalisation evaluated H at order {bad[0][1]} (second-quantised series)")
+        counters["define_time_evals"] += len(log)
+        nbk = outs[0].shape[0]
+        universe = [(s_, i, j, n) for s_ in range(3) for i in range(nbk) for j in range(nbk) for n in [(1, 0), (0, 1), (2, 0), (0, 2), (1, 1)]]
+        for q in rng.choice(len(universe), size=2, replace=False):
+            s_, i, j, n = universe[int(q)]
+            state["cone"] = [n]
+            before = len(log)
+            try:
+                outs[s_][(i, j) + n]
+            except OutOfCone as e:
+                raise Violation(f"second-quantised series: request {('H_tilde', 'U', 'U_inv')[s_]}[{i},{j},{n}] evaluated a term outside its causal cone: {e}")
+            except RuntimeError as e:
+                cur = e
+                while cur is not None:
+                    if isinstance(cur, OutOfCone):
+                        raise Violation(f"second-quantised series: request {('H_tilde', 'U', 'U_inv')[s_]}[{i},{j},{n}] evaluated a term outside its causal cone: {cur}")
+                    cur = cur.__cause__
+                raise Violation(f"request raised RuntimeError: {e}")
+            except Exception as e:  # noqa: BLE001
+                raise Violation(f"second-quantised series: request {('H_tilde', 'U', 'U_inv')[s_]}[{i},{j},{n}] raised {type(e).__name__}: {e}")
+            counters["hamiltonian_evals"] += len(log) - before
+            counters["requests"] += 1
+    keys = Counter(log)
+    dup = [k for k, v in keys.items() if v > 1]
+    if dup:
+        raise Violation(f"second-quantised series: Hamiltonian term {dup[0]} evaluated {keys[dup[0]]} times")
+    counters["form_second_quantised"] += 1
+    counters[f"second_quantised_{kind}"] += 1
+    return dict(verdict="held", sig=["2q", kind, sorted(map(str, table or [])), len(log)], nontrivial=True, counters=dict(counters),
+                sample=jsonable(dict(form="second_quantised", kind=kind)))
+
+
 def run_case(spec):
     from pymablock import block_diagonalize
     from pymablock.series import one, zero
 
     rng = rng_for(12, spec["case"])
+    if rng.random() < 0.025:
+        return _secondq_case(spec, rng)
     nb = int(rng.integers(2, 4))
     sizes = [int(rng.integers(1, 3)) for _ in range(nb)]
     n_par = int(rng.integers(1, 4))
@@ -248,7 +359,7 @@ def run_case(spec):
 
 def finalize(c, tier, evaluations, distinct):
     reasons = []
-    need = dict(form_scalar_implicit=40, form_scalar_indices=50, form_scalar_vectors=50, form_scalar_single=50, form_blocks=100, multi_element_requests=200, requests=1000, hamiltonian_evals=1000, metamorphic_pairs=300, causal_nested_requests=10000, define_time_evals=500)
+    need = dict(form_second_quantised=15, form_scalar_implicit=40, form_scalar_indices=50, form_scalar_vectors=50, form_scalar_single=50, form_blocks=100, multi_element_requests=200, requests=1000, hamiltonian_evals=1000, metamorphic_pairs=300, causal_nested_requests=10000, define_time_evals=500)
     for k, v in need.items():
         if c.get(k, 0) < v:
             reasons.append(f"{k} observed only {c.get(k, 0)} times (< {v})")
